@@ -24,6 +24,7 @@ from pyvc.lemmas import lemma_obligations  # noqa: E402
 from pyvc.solver import solve_all  # noqa: E402
 from pyvc.values import Unsupported  # noqa: E402
 from pyvc import replay as rp  # noqa: E402
+from pyvc import witness  # noqa: E402
 
 
 def load_plan():
@@ -137,7 +138,8 @@ def main(argv=None):
         return 3
     res = solve_all(obs, jobs=a.jobs, timeout_s=timeout, seed=seed)
     failed = [o for o in obs if res[o.id].status == 'failed']
-    unknown = [o for o in obs if res[o.id].status in ('unknown', 'error')]
+    unknown = [o for o in obs if res[o.id].status in ('unknown', 'error') and o.expect == 'valid']
+    guard_unknown = [o for o in obs if res[o.id].status in ('unknown', 'error') and o.expect != 'valid']
     faults = [o for o in failed if o.expect in ('sat', 'refutable')]
     real_fail = [o for o in failed if o.expect == 'valid']
     known = load_known()
@@ -163,6 +165,59 @@ def main(argv=None):
         violations.append((ob, path, confirmed))
     for sf in stage_fail:
         violations.append((None, sf['replay'], sf.get('confirmed', True)))
+    # witness search: (a) functions with undecided or unconfirmed obligations - look for a failing input on
+    # the real code; (b) every function under contract - cross-check engine semantics vs the compiled code
+    n_cross = plan.get('crosscheck', {}).get(tier, 8 if tier == 'quick' else 60)
+    need = {}
+    for ob in unknown:
+        need.setdefault((ob.func, json.dumps(ob.config or None, sort_keys=True)), []).append(ob)
+    for ob, path, confirmed in violations:
+        if ob is not None and not confirmed:
+            need.setdefault((ob.func, json.dumps(ob.config or None, sort_keys=True)), []).append(ob)
+    wit_stats = {'functions': 0, 'evaluations': 0, 'witnesses': 0, 'skipped': []}
+    witnessed_funcs = set()
+    seen_fc = set()
+    targets = []
+    for key in need:
+        targets.append((key, 200))
+    for t in functions:
+        c = reg.by_target[t]
+        for cfg in (c.configs or [None])[:3]:
+            key = (t, json.dumps(cfg or None, sort_keys=True))
+            if key not in need:
+                targets.append((key, n_cross))
+    for (t, cfgs), n in targets:
+        if (t, cfgs) in seen_fc or n <= 0:
+            continue
+        seen_fc.add((t, cfgs))
+        c = reg.by_target.get(t)
+        if c is None or c.trusted:
+            continue
+        cfg = json.loads(cfgs)
+        try:
+            r = witness.search(c, cfg, n, seed + 1)
+        except Exception as e:
+            wit_stats['skipped'].append(f'{t}: {type(e).__name__}: {str(e)[:120]}')
+            continue
+        wit_stats['functions'] += 1
+        wit_stats['evaluations'] += r['evaluated']
+        if r['witness'] is not None:
+            wit_stats['witnesses'] += 1
+            witnessed_funcs.add((t, cfgs))
+            obs_here = need.get((t, cfgs), [])
+            ob0 = obs_here[0] if obs_here else None
+            doc_ob = ob0 or type('O', (), {'name': f'{t.split("::")[-1]}#contract-on-real-code', 'func': t, 'kind': 'witness',
+                                           'label': ','.join(r['witness']['check']['violated']), 'lineno': 0, 'config': cfg})()
+            from pyvc.solver import Result
+            res0 = res.get(ob0.id) if ob0 is not None else Result('n/a', 'witness-search', 0.0)
+            path = write_replay(prop, doc_ob, res0, {'confirmed': True, **r['witness']},
+                                {'note': 'failing input found by contract-guided search on the real code',
+                                 'confirmed_on_real_code': True})
+            violations = [v for v in violations if not (v[0] is not None and v[0].func == t and not v[2])]
+            violations.append((doc_ob, path, True))
+    # obligations of a function for which a confirmed failing input exists are explained by it
+    unknown = [o for o in unknown if (o.func, json.dumps(o.config or None, sort_keys=True)) not in witnessed_funcs]
+    extra_cov['contract_runtime_crosscheck'] = wit_stats
     rc = 0
     for ob, kf in known_hits:
         print(f"KNOWN-FINDING: property={prop} {kf['what']} [obligation {ob.name}]")
